@@ -1907,6 +1907,11 @@ impl XmlDocumentTypeDeclaration {
                             // when the declaration is read (WFC: Legal Character).
                             if let parser::DeclarationEntityDef::EntityValue(values) = &v.def {
                                 for value in values {
+                                    // WFC: PEs in Internal Subset
+                                    if let parser::EntityValue::ParameterEntityReference(v) = value
+                                    {
+                                        return Err(error::Error::InvalidData(format!("%{};", v)));
+                                    }
                                     if let parser::EntityValue::Reference(
                                         parser::Reference::Character(v, radix),
                                     ) = value
